@@ -654,6 +654,13 @@ def _run_history(ctx, rng, case):
                                                   "msg": str(err)[:150]})
                 check_req(op.reqs[-1], expected(address, lay + suffix, path, method, None, None, None),
                           tag + " " + name)
+        # the prefix of a live path-prefix adapter is re-assigned between two requests (its public attribute)
+        moving = H.RequestAdapterAddPathPrefix("/api/v1/")
+        e3 = H.HttpConn(conn, adapters=[moving])
+        do(e3, layers + [[('prefix', "/api/v1/")]], "before the prefix is re-assigned")
+        moving.prefix = rng.choice(["/api/v2/", "/api/v2", "v3/"])
+        do(e3, layers + [[('prefix', moving.prefix)]], "after the prefix was re-assigned")
+        ctx.count("prefixes_re_assigned_between_requests")
         do(conn, layers, "orig after clones")
         ctx.count("requests_through_original_after_derivation")
         flat = [a for layer in layers for a in layer]
